@@ -14,6 +14,7 @@ package main
 import (
 	"context"
 	"encoding/json"
+	"flag"
 	"fmt"
 	"io"
 	"iter"
@@ -242,6 +243,7 @@ type recop struct {
 	nrec  *int
 	final uint64
 	gotF  bool
+	bars  map[uint64]bool
 	befF  int // records seen by this operator
 }
 
@@ -258,6 +260,10 @@ func (o *recop) HandleEventBatch(ctx context.Context, batch []*workerpb.Event) e
 			*o.nrec++
 		case *workerpb.Event_CheckpointBarrier:
 			o.evs = append(o.evs, fmt.Sprintf("Bar %d", t.CheckpointBarrier.CheckpointId))
+			if o.bars == nil {
+				o.bars = map[uint64]bool{}
+			}
+			o.bars[t.CheckpointBarrier.CheckpointId] = true
 			if t.CheckpointBarrier.CheckpointId == o.final {
 				o.gotF = true
 			}
@@ -269,15 +275,18 @@ func (o *recop) HandleEventBatch(ctx context.Context, batch []*workerpb.Event) e
 
 const finalCkpt = 1000000
 
-// stalls counts cases that hit a timeout; after two of them later waits are short so that a build of /repo
-// that stalls the pipeline does not make the whole run take hours.
+// Every wait of mode runnerpos is on an event of the real runner (a reader / job / operator callback). waitLimit only
+// bounds how long a WEDGED runner is waited for: 90 s (far above anything a loaded machine needs for a handful of
+// channel hand-overs; hx's own no-progress detector is 180 s). Its expiry marks the case incomplete (spec code 12), i.e.
+// the run already fails; only AFTER such a stall are later waits shortened, so that a build of /repo that wedges the
+// pipeline in every case does not take hours. A shortened wait can therefore never turn a passing run into a failing one.
 var stalls int
 
 func waitLimit() time.Duration {
-	if stalls >= 2 {
-		return 400 * time.Millisecond
+	if stalls >= 1 {
+		return 3 * time.Second
 	}
-	return 8 * time.Second
+	return 90 * time.Second
 }
 
 func genRunner(r *hx.Rand, tier string) *hx.Case {
@@ -474,6 +483,8 @@ func execRunner(c *hx.Case) (*hx.Result, error) {
 			}
 			rd.cmd <- probe
 		case <-time.After(1500 * time.Microsecond):
+			// bounded wait that only sharpens detection: the real loop is parked in Checkpoint() and CANNOT read, so
+			// nothing is concluded from the expiry; a runner that snapshots off the loop gets the chance to read on
 		}
 		rd.ckptRelease <- struct{}{}
 		return waitFor(job.done) && waitFor(called)
@@ -638,16 +649,21 @@ func execRunner(c *hx.Case) (*hx.Result, error) {
 				complete = false
 			}
 		case "settle":
-			// the loop has taken the last read when the next ReadEvents call arrives
-			if started {
-				select {
-				case <-rd.atRead:
-					rd.cmd <- nil
-				case <-timeout():
-					complete = false
+			// drain the pipeline: a checkpoint whose barrier has reached every operator is behind everything read so
+			// far (FIFO), whether or not a record was lost on the way - the wait is on the barrier, not on a count
+			ckid++
+			nck++
+			id := ckid
+			if !doCkpt(id) {
+				complete = false
+			} else if !waitOps(func() bool {
+				for _, o := range oplist {
+					if !o.bars[id] {
+						return false
+					}
 				}
-			}
-			if !waitOps(func() bool { return nrec >= nread }) {
+				return true
+			}) {
 				complete = false
 			}
 		}
@@ -1215,8 +1231,8 @@ func execKinesisOnce(c *hx.Case) (*hx.Result, error) {
 			// the assignment goroutine has given up after a failed ListShards
 			parks.Delete(sp)
 			panic(transient{e.Error()})
-		case <-time.After(20 * time.Second):
-			panic("kinesis splitter: assignment round did not finish")
+			// no deadline of our own: the round ends with the goroutine parked again or with its error; a wedged
+			// splitter is hx's no-progress detector's business
 		}
 	}
 
@@ -1367,8 +1383,7 @@ func execKinesisOnce(c *hx.Case) (*hx.Result, error) {
 			case <-ckEvents:
 			case e := <-storeErr:
 				panic("snapshot store: " + e.Error())
-			case <-time.After(20 * time.Second):
-				panic("snapshot store did not publish the checkpoint")
+				// no deadline of our own: the store either publishes or reports the failure
 			}
 			pub := store.CurrentCheckpoint()
 			if pub == nil || pub.Id != cid || len(pub.SourceCheckpoints) != 1 {
@@ -1649,17 +1664,14 @@ func execJobRestore(c *hx.Case) (*hx.Result, error) {
 		return nil, err
 	}
 	w, nsplits := pint(c, "workers", 2), pint(c, "splits", 2)
-	// A halted operator may still be flushing a memtable (a write into a removed directory panics in the DKV): the
-	// directories of this process are removed when it ends, stale ones of earlier processes after ten minutes.
+	// The directories of the clusters are never removed by this process: a halted operator may still be writing. They live
+	// under the engine's -out directory, which bin/check removes with its scratch after the engine process has ended.
 	if jobRoot == "" {
-		if olds, err := os.ReadDir("/var/tmp"); err == nil {
-			for _, e := range olds {
-				if info, err := e.Info(); err == nil && strings.HasPrefix(e.Name(), "c16-job-") && time.Since(info.ModTime()) > 10*time.Minute {
-					os.RemoveAll("/var/tmp/" + e.Name())
-				}
-			}
+		base := "/var/tmp"
+		if f := flag.Lookup("out"); f != nil && f.Value.String() != "" {
+			base = f.Value.String()
 		}
-		root, err := os.MkdirTemp("/var/tmp", "c16-job-")
+		root, err := os.MkdirTemp(base, "c16-job-")
 		if err != nil {
 			return nil, err
 		}
@@ -1697,10 +1709,12 @@ func execJobRestore(c *hx.Case) (*hx.Result, error) {
 		return nil, err
 	}
 	defer func() {
-		cl.AwaitFlushed(5 * time.Second)
+		cl.AwaitFlushed(5 * time.Second) // pacing only: nothing is removed afterwards
 		cl.Close()
 	}()
-	const tmo = 15 * time.Second
+	// every wait below is on a logged observation of the cluster; tmo only bounds how long a WEDGED cluster is waited for
+	// (reported as an execution error); it is far above anything a loaded machine needs
+	const tmo = 120 * time.Second
 	all := cl.StartWorkers(w)
 	if !cl.AwaitRunning(0, tmo) {
 		return nil, fmt.Errorf("cluster did not start: %v", cl.Log().Errors)
@@ -1768,19 +1782,22 @@ func execJobRestore(c *hx.Case) (*hx.Result, error) {
 		cl.ReleasePublication()
 		return nil, fmt.Errorf("checkpoint %d not complete", n2)
 	}
-	finish := func() {
+	// finish lets the held write of checkpoint n2 complete and waits until the store has made it its current checkpoint
+	finish := func() bool {
 		cl.ReleasePublication()
-		cl.AwaitNoFlush(published(n2, true), tmo)
-		cl.AwaitCurrent(n2, tmo)
+		return cl.AwaitNoFlush(published(n2, true), tmo) && cl.AwaitCurrent(n2, tmo)
 	}
+	finishedInHook := make(chan bool, 4)
 	switch op.Release {
 	case "before":
-		finish()
+		if !finish() {
+			return nil, fmt.Errorf("checkpoint %d was not published", n2)
+		}
 	case "deploy":
 		hookMu.Lock()
 		hook = func(first bool) {
 			if first {
-				finish() // the write finishes while the job is inside Assembly.Deploy
+				finishedInHook <- finish() // the write finishes while the job is inside Assembly.Deploy
 			}
 		}
 		hookMu.Unlock()
@@ -1796,7 +1813,9 @@ func execJobRestore(c *hx.Case) (*hx.Result, error) {
 	// a surviving runner that was sending to the dead operator stops with an error (as the real process would): it
 	// is replaced too, like a supervisor restarting the process
 	ok := false
-	for try := 0; try < 6 && !ok; try++ {
+	deadline := time.Now().Add(tmo)
+	for !ok && time.Now().Before(deadline) {
+		// 1.5 s is only the pace at which stopped survivors are looked for; the recovery itself is waited for until tmo
 		if ok = cl.AwaitRunning(genBefore, 1500*time.Millisecond); ok {
 			break
 		}
@@ -1818,6 +1837,13 @@ func execJobRestore(c *hx.Case) (*hx.Result, error) {
 	cl.ReleasePublication()
 	if !ok {
 		return nil, fmt.Errorf("cluster did not recover: %v", cl.Log().Errors)
+	}
+	select {
+	case fin := <-finishedInHook:
+		if !fin {
+			return nil, fmt.Errorf("checkpoint %d was not published inside the deployment", n2)
+		}
+	default:
 	}
 	l := cl.Log()
 	gen := cl.Generation()
@@ -2344,7 +2370,4 @@ func (eng) Execute(mode string, c *hx.Case) (*hx.Result, error) {
 func main() {
 	slog.SetDefault(slog.New(slog.NewTextHandler(io.Discard, nil)))
 	hx.Main(eng{})
-	if jobRoot != "" {
-		os.RemoveAll(jobRoot)
-	}
 }
